@@ -229,3 +229,62 @@ contract(f"{DD}::DHTDiscoveryCommunity.on_store_peer_request", "on_store_peer_re
                   "len(calls('ez_send')) == 0 or self.check_token(self.store[payload.target][0], payload.token)"],
          covers=["len(calls('ez_send')) == 1"],
          note="a peer can only be stored under its own mid and only with a valid token")
+
+
+# ---------------------------------------------------------------------------------------------------------------------
+# reading back: of the signed values found for a key, exactly ONE per signer is reported - the one with that signer's highest version,
+# whatever other signers' values are interleaved with it; unsigned values are all reported
+def pick(value, raws, decoded):
+    for i in range(len(raws)):
+        if value == raws[i]:
+            return decoded[i]
+    return None
+
+
+def newest_per_signer_ok(result, signer, ks, ds, ns):
+    mine = [r for r in result if r[1] is not None and r[1] == signer]
+    idx = [i for i in range(len(ks)) if ks[i] is not None and ks[i] == signer]
+    if len(idx) == 0:
+        return len(mine) == 0
+    top = ns[idx[0]]
+    for i in idx:
+        if ns[i] > top:
+            top = ns[i]
+    return len(mine) == 1 and any(ns[i] == top and ds[i] == mine[0][0] for i in idx)
+
+
+contract(f"{DC}::DHTCommunity.post_process_values", "post_process_values.newest-version-per-signer",
+         vars={"A": BYTES, "B": BYTES, "v1": BYTES, "v2": BYTES, "v3": BYTES, "d1": BYTES, "d2": BYTES, "d3": BYTES,
+               "n1": RANGE(0, 2 ** 32), "n2": RANGE(0, 2 ** 32), "n3": RANGE(0, 2 ** 32),
+               "k1": EXPR("[A, B, None][w1]"), "k2": EXPR("[A, B, None][w2]"), "k3": EXPR("[A, B, None][w3]"),
+               "self": OBJ(f"{DC}::DHTCommunity", logger=LOGGER())},
+         instances=[{"w1": a, "w2": b, "w3": c} for a in (0, 1, 2) for b in (0, 1, 2) for c in (0, 1, 2)],
+         requires=["A != B", "len(A) > 0 and len(B) > 0", "v1 != v2 and v1 != v3 and v2 != v3"],
+         call="self.post_process_values([v1, v2, v3])", raises=[],
+         stubs={f"{DC}::DHTCommunity.unserialize_value": {
+             "returns": "pick(value, [v1, v2, v3], [(d1, k1, n1), (d2, k2, n2), (d3, k3, n3)])",
+             "note": "own contracts above: returns (data, signer or None, version) only for values that verify"}},
+         ensures=["newest_per_signer_ok(result, A, [k1, k2, k3], [d1, d2, d3], [n1, n2, n3])",
+                  "newest_per_signer_ok(result, B, [k1, k2, k3], [d1, d2, d3], [n1, n2, n3])",
+                  "len([r for r in result if r[1] is None]) == len([k for k in [k1, k2, k3] if k is None])"],
+         bounded="three found values of up to two signers (every assignment of signer / unsigned to the three positions)",
+         note="a signer's older value never displaces its newer one in a lookup result, whatever is interleaved with it")
+
+
+# ---------------------------------------------------------------------------------------------------------------------
+# token lifetime: secrets are rotated every 300 s and a token is honoured while its secret is among the kept ones; the table of secrets
+# is created (DHTCommunity.__init__, not declared here: the field takes the value the constructor gives it) so that at most TWO are ever
+# kept - a token is valid for at most two rotation periods (600 s = TOKEN_EXPIRATION_TIME), never for three
+def rotate(self, times):
+    for _ in range(times):
+        self.token_maintenance()
+    return len(self.token_secrets)
+
+
+contract(f"{DC}::DHTCommunity.token_maintenance", "token_maintenance.at-most-two-secrets-are-kept",
+         vars={"self": OBJ(f"{DC}::DHTCommunity", logger=LOGGER(), tokens=EXPR("{}"))},
+         instances=[{"times": 1}, {"times": 2}, {"times": 3}, {"times": 4}],
+         requires=["freeze_time(1000.0)"], call="rotate(self, times)", raises=[],
+         ensures=["result == min(times, 2)", "self.token_secrets.maxlen == 2"],
+         bounded="1..4 rotations from the constructor's initial state",
+         note="the third rotation forgets the first secret: tokens derived from it stop being honoured")
